@@ -167,7 +167,7 @@ func init() {
 		return nil
 	}
 	intrinsics[ndPkg+"Thorough"] = func(e *Exec, _ *frame, args []Value) Value { return e.w.tier == "thorough" }
-	intrinsics[ndPkg+"TempRoot"] = func(e *Exec, _ *frame, args []Value) Value { return mkStr("/vfs") }
+	intrinsics[ndPkg+"TempRoot"] = func(e *Exec, _ *frame, args []Value) Value { return mkStr("/vfs/r1/r2") }
 	intrinsics[ndPkg+"Symbolic"] = func(e *Exec, _ *frame, args []Value) Value { return true }
 	intrinsics[ndPkg+"IsConcrete"] = func(e *Exec, _ *frame, args []Value) Value {
 		if i, ok := args[0].(Iface); ok {
